@@ -297,10 +297,22 @@ where
 {
     use actix_web::web::Query;
     use deserr::actix_web::AwebQueryParameter;
-    let through_request = q.via == "from_request" && uri_ok(&q.query);
+    // "from_request_rewritten": the same request object is extracted from twice; in between its URI is rewritten
+    // (what a credential-stripping or legacy-parameter middleware does). The extractor must see the request as it is.
+    let rewritten = q.via == "from_request_rewritten" && uri_ok(&q.query);
+    let through_request = (q.via == "from_request" || rewritten) && uri_ok(&q.query);
     let parts = || actix_web::test::TestRequest::default().uri(&format!("/search?{}", q.query)).to_http_parts();
+    const STALE: &str = "/search?q=stale&limit=3&api_key=s3cr3t";
+    let rewrite = |srv: &mut actix_web::dev::ServiceRequest| {
+        srv.head_mut().uri = format!("/search?{}", q.query).parse().expect("uri_ok was checked");
+    };
     let exp: Exp<T, E> = match guarded(|| {
-        let res = if through_request {
+        let res = if rewritten {
+            let mut srv = actix_web::test::TestRequest::default().uri(STALE).to_srv_request();
+            let _ = block_on(Query::<Value>::from_request(srv.request(), &mut actix_web::dev::Payload::None));
+            rewrite(&mut srv);
+            block_on(Query::<Value>::from_request(srv.request(), &mut actix_web::dev::Payload::None))
+        } else if through_request {
             let (req, mut pl) = parts();
             block_on(Query::<Value>::from_request(&req, &mut pl))
         } else {
@@ -318,7 +330,12 @@ where
         Err(m) => Exp::OraclePanic(m),
     };
     let got: Got<T, E> = match guarded(|| {
-        let res = if through_request {
+        let res = if rewritten {
+            let mut srv = actix_web::test::TestRequest::default().uri(STALE).to_srv_request();
+            let _ = block_on(AwebQueryParameter::<T, E>::from_request(srv.request(), &mut actix_web::dev::Payload::None));
+            rewrite(&mut srv);
+            block_on(AwebQueryParameter::<T, E>::from_request(srv.request(), &mut actix_web::dev::Payload::None))
+        } else if through_request {
             let (req, mut pl) = parts();
             block_on(AwebQueryParameter::<T, E>::from_request(&req, &mut pl))
         } else {
@@ -335,7 +352,7 @@ where
         Ok(x) => x,
         Err(m) => Got::Panic(m),
     };
-    compare(if through_request { "actix-query/from_request" } else { "actix-query/from_query" }, exp, got)
+    compare(if rewritten { "actix-query/from_request_rewritten" } else if through_request { "actix-query/from_request" } else { "actix-query/from_query" }, exp, got)
 }
 
 // ------------------------------------------------------------------------------------------------
